@@ -32,7 +32,22 @@ type c08T struct {
 
 type c08Sys struct {
 	maxPool int
-	cat3    bool
+	unary   []string // unary operation kinds of this search: "scale2", and the identity-like "bcast", "reshape", "slice", "scale1"
+}
+
+// c08UnaryOp: the model operation of a unary kind on a tensor of n elements.
+func c08UnaryOp(kind string, n int) ref.Op {
+	switch kind {
+	case "bcast":
+		return ref.Op{K: "Broadcast", Shape: []int{n}}
+	case "reshape":
+		return ref.Op{K: "Reshape", Shape: []int{n}}
+	case "slice":
+		return ref.Op{K: "Slice"}
+	case "scale1":
+		return ref.Op{K: "Scale", F: 1}
+	}
+	return ref.Op{K: "Scale", F: 2}
 }
 
 func (s *c08Sys) Name(e c08Ev) string {
@@ -40,7 +55,7 @@ func (s *c08Sys) Name(e c08Ev) string {
 	case "leaf":
 		return fmt.Sprintf("leaf(%v)", e.B)
 	case "un":
-		return fmt.Sprintf("scale(%d)", e.I)
+		return fmt.Sprintf("%s(%d)", s.unary[e.J], e.I)
 	case "bin":
 		return fmt.Sprintf("mul(%d,%d)", e.I, e.J)
 	case "cat":
@@ -139,6 +154,9 @@ func (s *c08Sys) modelApply(ts []*c08T, e c08Ev) []*c08T {
 			ops = []int{e.I, e.J}
 		}
 		t := &c08T{ops: ops, kind: e.K, shapeN: ts[e.I].shapeN}
+		if e.K == "un" {
+			t.kind = "un:" + s.unary[e.J]
+		}
 		anyTracked, anySpent := false, false
 		for _, o := range ops {
 			anyTracked = anyTracked || ts[o].tracked
@@ -148,7 +166,7 @@ func (s *c08Sys) modelApply(ts []*c08T, e c08Ev) []*c08T {
 		var op ref.Op
 		switch e.K {
 		case "un":
-			op = ref.Op{K: "Scale", F: 2}
+			op = c08UnaryOp(s.unary[e.J], ts[e.I].shapeN)
 		case "bin":
 			op = ref.Op{K: "Mul"}
 			in = append(in, ts[e.J].val)
@@ -235,9 +253,11 @@ func c08Program(ts []*c08T) (*ref.Program, []int) {
 			in[k] = idmap[o]
 		}
 		var op ref.Op
+		switch {
+		case strings.HasPrefix(t.kind, "un:"):
+			op = c08UnaryOp(t.kind[3:], t.shapeN)
+		}
 		switch t.kind {
-		case "un":
-			op = ref.Op{K: "Scale", F: 2}
 		case "bin":
 			op = ref.Op{K: "Mul"}
 		case "cat":
@@ -264,7 +284,9 @@ func (s *c08Sys) Enabled(hist []c08Ev) []c08Ev {
 	var cands []c08Ev
 	cands = append(cands, c08Ev{K: "leaf", B: true}, c08Ev{K: "leaf", B: false})
 	for i := 0; i < n; i++ {
-		cands = append(cands, c08Ev{K: "un", I: i})
+		for k := range s.unary {
+			cands = append(cands, c08Ev{K: "un", I: i, J: k})
+		}
 	}
 	for i := 0; i < n; i++ {
 		for j := i; j < n; j++ {
@@ -304,7 +326,11 @@ func (s *c08Sys) Step(hist []c08Ev) (string, core.Verdict) {
 		case "leaf":
 			rs = append(rs, rt.Make(c08LeafVal(len(rs)), e.B))
 		case "un":
-			rs = append(rs, rs[e.I].Scale(2))
+			r, err := rt.Apply(c08UnaryOp(s.unary[e.J], ts[e.I].shapeN), []tensor.Tensor{rs[e.I]})
+			if err != nil {
+				return "", core.Fail("step %d %s: %v", step, s.Name(e), err)
+			}
+			rs = append(rs, r)
 		case "bin":
 			r, err := rs[e.I].Mul(rs[e.J])
 			if err != nil {
@@ -388,8 +414,18 @@ func checkC08(c *core.Ctx) {
 		bounds = []bound{{5, 7}, {6, 6}}
 	}
 	for _, b := range bounds {
-		sys := &c08Sys{maxPool: b.pool}
+		sys := &c08Sys{maxPool: b.pool, unary: []string{"scale2"}}
 		st := core.BFS[c08Ev](c, sys, b.depth, fmt.Sprintf("p%d/", b.pool))
 		c.Note("pool<=%d depth<=%d: %d states, %d transitions, new states per depth %v", b.pool, b.depth, st.States, st.Transitions, st.PerDepth)
 	}
+	// second search: the unary operations are the identity-like ones (Broadcast
+	// and Reshape to the tensor's own shape, whole Slice, Scale(1)), where a
+	// "nothing to do" shortcut could hand back the operand itself
+	ib := bound{4, 5}
+	if c.Thorough() {
+		ib = bound{5, 6}
+	}
+	sys := &c08Sys{maxPool: ib.pool, unary: []string{"bcast", "reshape", "slice", "scale1"}}
+	st := core.BFS[c08Ev](c, sys, ib.depth, fmt.Sprintf("id%d/", ib.pool))
+	c.Note("identity-like unary ops, pool<=%d depth<=%d: %d states, %d transitions, new states per depth %v", ib.pool, ib.depth, st.States, st.Transitions, st.PerDepth)
 }
